@@ -125,6 +125,22 @@ fn c14_well_formed_image_is_identified() {
 
 #[test]
 fn bprime_single_field_corruptions_never_panic() {
+    // C02 "never loops without bound": the enumeration runs in a worker; if it does not finish within the bound the
+    // test FAILS and names the input it was parsing (a hang must be a verdict, not a timeout of the runner)
+    static CURRENT: std::sync::Mutex<String> = std::sync::Mutex::new(String::new());
+    let (tx, rx) = std::sync::mpsc::channel();
+    std::thread::spawn(move || {
+        let r = std::panic::catch_unwind(|| corruption_enumeration(&CURRENT));
+        let _ = tx.send(r);
+    });
+    match rx.recv_timeout(std::time::Duration::from_secs(120)) {
+        Ok(Ok(())) => {}
+        Ok(Err(e)) => std::panic::resume_unwind(e),
+        Err(_) => panic!("ELF identification did not return within 120 s (whole enumeration normally takes seconds); it hangs on: {}", CURRENT.lock().map(|g| g.clone()).unwrap_or_default()),
+    }
+}
+
+fn corruption_enumeration(current: &std::sync::Mutex<String>) {
     let base = build_elf(true);
     let len = base.b.len() as u64;
     let values: [u64; 14] = [0, 1, 2, 7, 8, len - 1, len, len + 1, 0xffff, 0xffff_ffff, 0x7fff_ffff_ffff_ffff,
@@ -150,6 +166,7 @@ fn bprime_single_field_corruptions_never_panic() {
             for &v in &values {
                 let mut b = base.b.clone();
                 b[off..off + width].copy_from_slice(&v.to_le_bytes()[..width]);
+                if let Ok(mut g) = current.try_lock() { *g = format!("field at offset {off} (width {width}) := {v:#x} (with_note={with_note})"); }
                 let r1 = std::panic::catch_unwind(|| BuildId::read_from_module(ProcessMemory::Slice(&b)).map(|x| x.0).map_err(|_| ()));
                 let r2 = std::panic::catch_unwind(|| SoName::read_from_module(ProcessMemory::Slice(&b)).map(|x| x.0).map_err(|_| ()));
                 n += 2;
@@ -170,6 +187,7 @@ fn bprime_single_field_corruptions_never_panic() {
                         let mut b = base.b.clone();
                         b[aoff..aoff + aw].copy_from_slice(&va.to_le_bytes()[..aw]);
                         b[boff..boff + bw].copy_from_slice(&vb.to_le_bytes()[..bw]);
+                        if let Ok(mut g) = current.try_lock() { *g = format!("fields at {aoff} := {va:#x} and {boff} := {vb:#x} (with_note={with_note})"); }
                         let r1 = std::panic::catch_unwind(|| BuildId::read_from_module(ProcessMemory::Slice(&b)).map(|x| x.0).map_err(|_| ()));
                         let r2 = std::panic::catch_unwind(|| SoName::read_from_module(ProcessMemory::Slice(&b)).map(|x| x.0).map_err(|_| ()));
                         n += 2;
